@@ -5,7 +5,7 @@ ENV = "GOFLAGS=-mod=mod GOPROXY=off GOSUMDB=off GOTOOLCHAIN=local"
 checks = {
  "C05": dict(cat="exploration", ref="§7 C05", technique="deterministic simulation: real ATP client and server over a simulated fragmenting/coalescing transport under a seeded statement-level scheduler; per-call comparison with an in-process reference",
    text="Seeded search over schedules, transport chunkings and generated plugin schemas/inputs; every Execute result is compared with CallStep on an independent copy; a clean batch is evidence, not proof.",
-   note="Trusted: the AST rewriter preserves semantics (the repo's own suite passes on the instrumented copy), testing/synctest's fake clock and quiescence detection, fxamacker/cbor. The reference call sees the CBOR-normalised input. ATP v1 framing is exercised under C08's scripted server, not here."),
+   note="Trusted: the AST rewriter preserves semantics (the repo's own suite passes on the instrumented copy), testing/synctest's fake clock and quiescence detection, fxamacker/cbor. The reference call sees the CBOR-normalised input. Legacy v1 framing is exercised against a stub v1 plugin (batch c05.v1) that answers with the in-process results of a reference copy."),
  "C06": dict(cat="exploration", ref="§7 C06", technique="deterministic simulation: seeded and delay-bounded scheduling (exhaustive single-delay sweep over every statement of client and server) with exact deadlock detection on a fake clock",
    text="Random/sticky/PCT schedules plus a sweep that holds back every yield site of atp/client.go and atp/server.go singly (occurrences 1-3) on canonical session histories; a hang is decided exactly (all goroutines durably blocked, no timer pending).",
    note="Trusted: rewriter, synctest, shim mutex semantics. The peer is the SDK's own server; the harness drains signal channels as the API asks. Scheduling delays are logical: no fake time passes while a goroutine is held."),
